@@ -132,22 +132,18 @@ fn to_text_changes(changes: Vec<TextDocumentContentChangeEvent>, text: String) -
     let mut temp_text = text;
     changes
         .into_iter()
-        .filter_map(|change| {
-            if let TextDocumentContentChangeEvent {
-                range: Some(range),
-                text,
-                ..
-            } = change
-            {
-                let text_change = TextChange {
-                    range: as_index_range(&range, &temp_text),
-                    text,
-                };
-                temp_text.replace_range(text_change.range.clone(), &text_change.text);
-                Some(text_change)
-            } else {
-                None
-            }
+        .map(|change| {
+            let range = match change.range {
+                Some(range) => as_index_range(&range, &temp_text),
+                // a change without range replaces the whole document
+                None => 0..temp_text.len(),
+            };
+            let text_change = TextChange {
+                range,
+                text: change.text,
+            };
+            temp_text.replace_range(text_change.range.clone(), &text_change.text);
+            text_change
         })
         .collect()
 }
